@@ -210,10 +210,12 @@ var panicAccepted = map[string]string{
 
 func checkC16(c *Ctx) {
 	r := c.R
-	r.Explain = "Decides structural clauses of C16 on the generators' own code. R16a: every call-graph cycle among repository functions (SCCs over type-resolved static callees) is classified per recursive call site: containment recursion (argument is <x>.Messages/.Enums or a range variable over it — the declaration tree is finite) is discharged; recursion along message references (field.Message, method.Input …) is discharged only if every path from the function entry to the call passes the insertion into a visited map that is tested with an early return at entry (go/cfg), or if all recursive sites sit in the map arm (IsMap/IsMapEntry: map values are never maps, depth <= 1). R16b: no `for` without range (no unbounded loop). R16c: panic/log.Fatal/os.Exit sites (allowed only for unreadable input and stdout failure), nil-guard discipline for the optional links Field.Message/Enum/Oneof (dominating guard in the function, at all callers, or a struct witness such as OneofVariant.IsMessage; the remaining sites are a frozen, reasoned table), constant indexes guarded by a length/IsMap guard. Not decided: numeric time/memory bounds, output size, behaviour inside protogen/libopenapi."
+	r.Explain = "Decides structural clauses of C16 on the generators' own code. R16a: every call-graph cycle among repository functions (SCCs over type-resolved static callees) is classified per recursive call site: containment recursion (argument is <x>.Messages/.Enums or a range variable over it — the declaration tree is finite) is discharged; recursion along message references (field.Message, method.Input …) is discharged only if every path from the function entry to the call passes the insertion into a visited map that is tested with an early return at entry (go/cfg), or if all recursive sites sit in the map arm (IsMap/IsMapEntry) and recurse on the map's value FIELD (a map value is never a map, depth <= 1) or, when they recurse on the value's message, the function tests a visited set at entry. R16b: no `for` without range (no unbounded loop). R16c: panic/log.Fatal/os.Exit sites (allowed only for unreadable input and stdout failure), nil-guard discipline for the optional links Field.Message/Enum/Oneof (dominating guard in the function, at all callers, or a struct witness such as OneofVariant.IsMessage; the remaining sites are a frozen, reasoned table), constant indexes guarded by a length/IsMap guard. Not decided: numeric time/memory bounds, output size, behaviour inside protogen/libopenapi."
 	r.Trusted = []string{"protobuf descriptors: the declaration tree (nested messages/enums) is finite and acyclic; map values cannot be maps; a map entry message has exactly two fields"}
 	r.Rule("R16a", "every recursion cycle is containment-decreasing, visited-guarded, or confined to the map arm", 30)
 	r.Rule("R16b", "no unbounded loop: every for statement in generator packages is a range (or a bounded induction)", 8)
+	r.Rule("R16d", "visited sets are keyed injectively (full name or descriptor pointer)", 2)
+	visitedKeysInjective(c, "R16d", nil)
 	r.Rule("R16c-panic", "no panic/log.Fatal/os.Exit on a path that depends on a well-formed request", 2)
 	r.Rule("R16c-nil", "every dereference of Field.Message/Enum/Oneof is dominated by a guard establishing it is non-nil", 30)
 	r.Rule("R16c-index", "constant indexes into descriptor-derived slices are dominated by a length / IsMap guard", 5)
@@ -289,7 +291,17 @@ func checkC16(c *Ctx) {
 							}
 						}
 					}
-					if mapArm {
+					argIsMessage := false
+					for _, a := range cs.Call.Args {
+						if tv, ok := info.Types[a]; ok && tv.Type != nil && typeIsNamed(tv.Type, "compiler/protogen", "Message") {
+							argIsMessage = true
+						}
+					}
+					if mapArm && argIsMessage && !tested {
+						// a map VALUE FIELD is never a map, so a call on the value field cannot take the map arm again;
+						// a call on the value's MESSAGE can (its own fields may be maps) unless the function tests a visited set at entry
+						st.class = "unguarded: the map arm recurses on the value's message (whose fields may again be maps) and the function keeps no visited set"
+					} else if mapArm {
 						st.class = "map-arm"
 					} else if cs.Callee != f && c.entryGuarded(cs.Callee, inSCC) {
 						st.class = "visited: callee " + cs.Callee.Name() + " tests and marks its visited set before recursing"
@@ -401,6 +413,31 @@ func checkC16(c *Ctx) {
 								"the plugin crashes instead of answering with CodeGeneratorResponse.error", map[string]any{"accepted_because": panicAccepted[where]})
 						}
 					case *ast.SliceExpr:
+						// x[:v] / x[v+1:] where v is the result of a search (strings.Index…): -1 when nothing is found
+						for _, be := range []ast.Expr{x.Low, x.High, x.Max} {
+							if be == nil {
+								continue
+							}
+							ast.Inspect(be, func(m ast.Node) bool {
+								id, ok := m.(*ast.Ident)
+								if !ok {
+									return true
+								}
+								def := localDef(info, fd.Body, id)
+								call, ok := def.(*ast.CallExpr)
+								if !ok {
+									return true
+								}
+								cal := Callee(info, call)
+								if cal == nil || cal.Pkg() == nil || !searchFuncs[cal.Pkg().Path()+"."+cal.Name()] {
+									return true
+								}
+								guard := findSignGuard(parents, x, id.Name)
+								key := fmt.Sprintf("%s %s sliced at the position found by %s.%s", c.enclosingFunc(pk, x.Pos()), types.ExprString(x.X), cal.Pkg().Name(), cal.Name())
+								r.CheckD(guard != "", "R16c-index", key, c.P.Pos(x.Pos()), fmt.Sprintf("%s is the result of %s.%s, which is -1 when nothing is found, and is used as a slice bound without a dominating test of its sign: an input without the searched character makes the plugin panic with `slice bounds out of range` instead of answering", id.Name, cal.Pkg().Name(), cal.Name()), map[string]any{"guard": guard})
+								return true
+							})
+						}
 						// x[:k] / x[k:] with a constant k > 0 on a string or slice: needs a length guard
 						xt, ok := info.Types[x.X]
 						if !ok {
@@ -751,4 +788,143 @@ func (c *Ctx) callerGuard(pk *packages.Package, s derefSite, depth int) string {
 		return ""
 	}
 	return fmt.Sprintf("guarded at all %d call sites", nSites)
+}
+
+// searchFuncs return -1 when nothing is found.
+var searchFuncs = map[string]bool{}
+
+func init() {
+	for _, p := range []string{"strings", "bytes"} {
+		for _, n := range []string{"Index", "IndexByte", "IndexRune", "IndexAny", "IndexFunc", "LastIndex", "LastIndexByte", "LastIndexAny", "LastIndexFunc"} {
+			searchFuncs[p+"."+n] = true
+		}
+	}
+	searchFuncs["slices.Index"], searchFuncs["slices.IndexFunc"] = true, true
+}
+
+// findSignGuard: the use `at` of the search result v is dominated by a test that excludes v < 0:
+// it sits in the body of `if v >= 0 / v > 0 / v != -1 / v > -1 (&& …)`, in the else arm of
+// `if v < 0 / v == -1 / v <= -1`, or after such an `if` whose body terminates.
+func findSignGuard(parents map[ast.Node]ast.Node, at ast.Node, v string) string {
+	cmp := func(cond ast.Expr, positive bool) bool {
+		found := false
+		var walk func(e ast.Expr)
+		walk = func(e ast.Expr) {
+			e = ast.Unparen(e)
+			be, ok := e.(*ast.BinaryExpr)
+			if !ok {
+				return
+			}
+			if positive && be.Op == token.LAND || !positive && be.Op == token.LOR {
+				walk(be.X)
+				walk(be.Y)
+				return
+			}
+			if types.ExprString(be.X) != v {
+				return
+			}
+			y := types.ExprString(be.Y)
+			if positive {
+				switch {
+				case be.Op == token.GEQ && y == "0", be.Op == token.GTR && (y == "0" || y == "-1"), be.Op == token.NEQ && y == "-1":
+					found = true
+				}
+			} else {
+				switch {
+				case be.Op == token.LSS && y == "0", be.Op == token.EQL && y == "-1", be.Op == token.LEQ && (y == "-1" || y == "0"):
+					found = true
+				}
+			}
+		}
+		walk(cond)
+		return found
+	}
+	var child ast.Node = at
+	for p := parents[at]; p != nil; child, p = p, parents[p] {
+		switch x := p.(type) {
+		case *ast.IfStmt:
+			if x.Body == child && cmp(x.Cond, true) {
+				return "if: " + types.ExprString(x.Cond)
+			}
+			if x.Else == child && cmp(x.Cond, false) {
+				return "else of: " + types.ExprString(x.Cond)
+			}
+		case *ast.BlockStmt:
+			for _, st := range x.List {
+				if st == child || st.Pos() >= child.Pos() {
+					break
+				}
+				if ifs, ok := st.(*ast.IfStmt); ok && terminates(ifs.Body) && cmp(ifs.Cond, false) {
+					return "early exit: " + types.ExprString(ifs.Cond)
+				}
+			}
+		case *ast.FuncLit, *ast.FuncDecl:
+			return ""
+		}
+	}
+	return ""
+}
+
+// visitedKeysInjective: the key of every visited set that guards a recursion along
+// message references identifies ONE message: it is derived from Desc.FullName()
+// (or the map is keyed by the descriptor pointer). A coarser key (short name,
+// GoName) still terminates, but two different messages with the same short name
+// are conflated: the second is silently skipped.
+func visitedKeysInjective(c *Ctx, rid string, only func(fn *types.Func) bool) {
+	r := c.R
+	n := 0
+	for _, comp := range c.sccs() {
+		if !isRepoGenPkg(comp[0]) {
+			continue
+		}
+		for _, f := range comp {
+			if only != nil && !only(f) {
+				continue
+			}
+			tested, ins, vdesc := c.visitedGuard(f)
+			if !tested || len(ins) == 0 {
+				continue
+			}
+			decl := c.P.Decls[f]
+			info := c.P.DeclPkg[f].TypesInfo
+			// the key expression of the insertion
+			var keyExpr ast.Expr
+			var mapType types.Type
+			ast.Inspect(decl.Body, func(nd ast.Node) bool {
+				as, ok := nd.(*ast.AssignStmt)
+				if !ok {
+					return true
+				}
+				for _, l := range as.Lhs {
+					if ix, ok := ast.Unparen(l).(*ast.IndexExpr); ok && types.ExprString(ix.X)+"["+types.ExprString(ix.Index)+"]" == vdesc {
+						keyExpr = ix.Index
+						if tv, ok := info.Types[ix.X]; ok {
+							mapType = tv.Type
+						}
+					}
+				}
+				return true
+			})
+			if keyExpr == nil {
+				continue
+			}
+			n++
+			src := ast.Unparen(keyExpr)
+			if id, ok := src.(*ast.Ident); ok {
+				if d := localDef(info, decl.Body, id); d != nil {
+					src = ast.Unparen(d)
+				}
+			}
+			text := types.ExprString(src)
+			ok := strings.Contains(text, ".FullName()")
+			if m, isMap := mapType.Underlying().(*types.Map); isMap {
+				if _, isPtr := m.Key().Underlying().(*types.Pointer); isPtr {
+					ok = true
+				}
+			}
+			r.Check(ok, rid, FuncName(f)+": visited set "+vdesc+" is keyed by the message's full name", c.P.Pos(keyExpr.Pos()),
+				fmt.Sprintf("%s guards its recursion with %s where the key is %s: two different messages with the same short name (pkg.a.Item and pkg.b.Item, or a nested Outer.Item beside a top-level Item) share one key, so the second one is treated as already visited and skipped", FuncName(f), vdesc, text))
+		}
+	}
+	r.Count("visited sets whose key was classified", n)
 }
